@@ -147,6 +147,7 @@ type Machine struct {
 	sharedCells  map[*Value]bool
 	sharedWrites []string
 	uncertain    bool
+	initStarted  bool
 	worklist     [][]decision
 
 	AllOrders   bool // fork over map iteration orders (up to 4 keys)
@@ -246,6 +247,7 @@ func (m *Machine) runPath(prefix []decision, body func(m *Machine) Value) (res *
 	m.sharedCells = map[*Value]bool{}
 	m.sharedWrites = nil
 	m.uncertain = false
+	m.initStarted = false
 	m.Scratch = map[any]any{}
 	res = &PathResult{}
 	defer func() {
@@ -555,6 +557,19 @@ func (m *Machine) step(fn *ssa.Function) {
 func (m *Machine) global(g *ssa.Global) *Value {
 	if p, ok := m.globals[g]; ok {
 		return p
+	}
+	// Package-level variables of the package under test are initialised by running its
+	// real initialiser in the engine, once per path, on first use.
+	if g.Pkg == m.P.Pkg && !m.initStarted && g.Name() != "init$guard" {
+		m.initStarted = true
+		if init := m.P.Pkg.Func("init"); init != nil {
+			saved := m.depth
+			m.call(nil, 0, init, nil)
+			m.depth = saved
+		}
+		if p, ok := m.globals[g]; ok {
+			return p
+		}
 	}
 	if init := m.P.GlobalInit; init != nil {
 		if v, ok := init(m, g); ok {
